@@ -698,8 +698,10 @@ func c02Run1(c *fw.Ctx) {
 	// again" (two exchanges on one connection that both got as far as a verified proof): every symbol once — L's genuine
 	// key exchange, sealed under the keys of the SECOND exchange, completes
 	if c.Shard == 2%c.NShards {
-		for _, sym := range alpha {
-			c02Exec(c, []string{"L:M1", "L:M3-valid", "L:M5-sealed-but-cut-inside", "L:M1", "L:M3-valid", sym})
+		for _, refused := range []string{"L:M5-sealed-but-cut-inside", "L:M5-random-key", "L:M5-len15"} {
+			for _, sym := range alpha {
+				c02Exec(c, []string{"L:M1", "L:M3-valid", refused, "L:M1", "L:M3-valid", sym})
+			}
 		}
 	}
 	sampled := 0
